@@ -399,3 +399,33 @@ def rotation(rng, n, theta):
     if nrm == 0:
         return np.eye(n)
     return sl.expm(theta * K / nrm)
+
+
+def roothaan_radius(hs, L, D0, nelec, kind, h=1e-6):
+    """numerical spectral radius of the linearised Roothaan map D -> D'(F[D]) at a fixed point (observation only)"""
+    n = D0[0].shape[0]
+
+    def step(Ds):
+        Fk = np_fock(hs, L, Ds)
+        out = []
+        for sp in (0, 1):
+            _, v = np.linalg.eigh(Fk[sp])
+            out.append(v[:, :nelec[sp]] @ v[:, :nelec[sp]].T)
+        return out
+    basis = []
+    for sp in ((0,) if kind == "rhf" else (0, 1)):
+        for p in range(n):
+            for q in range(p, n):
+                E = np.zeros((2, n, n))
+                E[sp, p, q] = E[sp, q, p] = 1.0
+                if kind == "rhf":
+                    E[1] = E[0]
+                basis.append(E)
+    cols = []
+    for b in basis:
+        Dp = step([D0[0] + h * b[0], D0[1] + h * b[1]])
+        Dm = step([D0[0] - h * b[0], D0[1] - h * b[1]])
+        cols.append(np.concatenate([(Dp[sp] - Dm[sp]).ravel() for sp in (0, 1)]) / (2 * h))
+    Bm = np.array([b.ravel() for b in basis]).T
+    T = np.linalg.lstsq(Bm, np.array(cols).T, rcond=None)[0]
+    return float(max(abs(np.linalg.eigvals(T))))
